@@ -89,6 +89,21 @@ def cases(tier, rng):
         x = rng.choice([rng.getrandbits(256), rng.randrange(P, 2 ** 256), P + rng.randrange(1, 50), rng.randrange(0, 50)])
         x = min(x, 2 ** 256 - 1)
         yield {"k": "pubraw", "hex": rng.choice(["02", "03", "", "05", "04"]) + "%064x" % x, "dom": False if False else True}
+    # 65-byte encodings that are not points: right x with a wrong y, x off the curve, coordinates >= p, the other prefix bytes
+    import coincurve
+    for _ in range(60 if tier == "quick" else 1500):
+        f = coincurve.PrivateKey(rng.randrange(1, N).to_bytes(32, "big")).public_key.format(False)
+        x, y = int.from_bytes(f[1:33], "big"), int.from_bytes(f[33:], "big")
+        q = rng.randrange(8)
+        if q == 0: y = (y + 1) % P
+        elif q == 1: y = y ^ (1 << rng.randrange(256))
+        elif q == 2: x = (x + rng.randrange(1, 9)) % P
+        elif q == 3: x = x ^ (1 << rng.randrange(256))
+        elif q == 4: y = P - y                       # the other point with this x: valid
+        elif q == 5: x, y = y, x
+        elif q == 6: y = y + P if y + P < 2 ** 256 else y
+        pre = rng.choice(["04", "04", "04", "06", "07", "00"])
+        yield {"k": "pubraw", "hex": pre + "%064x%064x" % (x % 2 ** 256, y % 2 ** 256)}
     for hx in ["02" + "11" * 30, "04" + "11" * 64, "04" + "%064x" % 1 + "%064x" % 1, "02" + "11" * 33]:
         yield {"k": "pubraw", "hex": hx, "dom": False}
 
